@@ -69,6 +69,10 @@ def run(ck, replay=None):
     global TABLE2
     ck.sany("MC_Patches", "Trace_Patches", "MC_Coords")
     r = ck.model_check("MC_Patches", f"MC_Patches_{ck.tier}.cfg", workers=4)
+    if ck.tier == "thorough":
+        # the tiling / region-of-interest lemma for ALL n, k, overlap (Apalache, integer SMT), with its vacuity guard
+        if ck.apalache("MC_PatchesLemmaU", "Lemma", cinit="CInit"):
+            ck.apalache("MC_PatchesLemmaU", "NonEmpty", init="InitNoPre", cinit="CInit", expect_error=True)
     axis_scn = [(p[1], p[2], tuple(p[3]), p[4]) for p in r.printed("SCN")]
     r2 = ck.tlc("MC_Axes", "MC_Axes.cfg", workers=1, label="axis-table")
     TABLE2 = [tuple(t) for p in r2.printed("SCN") if len(p[1]) == 2 for t in p[2]][:2]
